@@ -329,3 +329,92 @@ def write_hadrons(p, cfg, path):
             m.create_dataset("corr", data=arr)
             model[k] = v
     return model
+
+
+# ---------------------------------------------------------------- Hadrons NPR files (ExternalLeg, Bilinear, FourQuarkFullyConnected)
+
+BILINEAR_GAMMAS = ["Identity", "Gamma5", "GammaX", "GammaY", "GammaZ", "GammaT", "GammaXGamma5", "GammaYGamma5", "GammaZGamma5", "GammaTGamma5",
+                   "SigmaXY", "SigmaXZ", "SigmaXT", "SigmaYZ", "SigmaYT", "SigmaZT"]
+
+
+def fourquark_table():
+    """vertex -> [(gammaA, gammaB, sign)] as documented by the Lorentz structure of the reader's vertices (written out by hand)"""
+    mu = ["X", "Y", "Z", "T"]
+    t = {"SS": [("Identity", "Identity", 1)], "PP": [("Gamma5", "Gamma5", 1)], "SP": [("Identity", "Gamma5", 1)], "PS": [("Gamma5", "Identity", 1)],
+         "VV": [("Gamma" + m, "Gamma" + m, 1) for m in mu], "AA": [("Gamma%sGamma5" % m, "Gamma%sGamma5" % m, 1) for m in mu],
+         "VA": [("Gamma" + m, "Gamma%sGamma5" % m, 1) for m in mu], "AV": [("Gamma%sGamma5" % m, "Gamma" + m, 1) for m in mu],
+         "TT": [("Sigma" + a, "Sigma" + a, 1) for a in ("XY", "XZ", "XT", "YZ", "YT", "ZT")],
+         "TTtilde": [("SigmaXY", "SigmaZT", -1), ("SigmaXZ", "SigmaYT", 1), ("SigmaXT", "SigmaYZ", -1), ("SigmaYZ", "SigmaXT", -1), ("SigmaYT", "SigmaXZ", 1), ("SigmaZT", "SigmaXY", -1)]}
+    return t
+
+
+def _npr_block(rnd, dims):
+    import numpy as np
+    n = 1
+    for x in dims:
+        n *= x
+    re = [rnd.uniform(-1, 1) for _ in range(n)]
+    im = [rnd.uniform(-1, 1) for _ in range(n)]
+    arr = np.zeros((1, 1) + tuple(dims), dtype=[("re", "<f8"), ("im", "<f8")])
+    arr["re"][0, 0] = np.array(re).reshape(dims)
+    arr["im"][0, 0] = np.array(im).reshape(dims)
+    return arr, list(zip(re, im))
+
+
+def _mom_attr(v):
+    import numpy as np
+    return np.array([(" ".join(str(x) for x in v) + " ").encode()])
+
+
+def write_hadrons_npr(p, cfg, path):
+    """Writes <stem>.<cfg>.h5 of the family p['family']; returns model {key: [(re, im)] flat in C order}.  The slot
+    order of the Bilinear_<i> / FourQuarkFullyConnected_<i> groups is a seeded permutation per file (the groups carry their names)."""
+    import h5py
+    import numpy as np
+    rnd = random.Random(kernel.H("data", p["data_seed"], cfg))
+    dims = p["dims"]
+    model = {}
+    with h5py.File(path, "w") as f:
+        if p["family"] == "extleg":
+            g = f.create_group("ExternalLeg")
+            arr, flat = _npr_block(rnd, dims)
+            g.create_dataset("corr", data=arr)
+            info = g.create_group("info")
+            info.attrs.create("pIn", _mom_attr(p["mom_in"]))
+            model["leg"] = flat
+        elif p["family"] == "bilinear":
+            g = f.create_group("Bilinear")
+            slots = list(range(16))
+            if p.get("permute_slots"):
+                rnd.shuffle(slots)
+            for i, name in zip(slots, BILINEAR_GAMMAS):
+                b = g.create_group("Bilinear_%d" % i)
+                arr, flat = _npr_block(rnd, dims)
+                b.create_dataset("corr", data=arr)
+                info = b.create_group("info")
+                info.attrs.create("gamma", np.array([name.encode()]))
+                info.attrs.create("pIn", _mom_attr(p["mom_in"]))
+                info.attrs.create("pOut", _mom_attr(p["mom_out"]))
+                model[name] = flat
+        else:
+            g = f.create_group("FourQuarkFullyConnected")
+            pairs = []
+            for v, lst in sorted(fourquark_table().items()):
+                for a, b_, sg in lst:
+                    if (a, b_) not in pairs:
+                        pairs.append((a, b_))
+            assert len(pairs) == 32
+            slots = list(range(32))
+            if p.get("permute_slots"):
+                rnd.shuffle(slots)
+            for i, (a, b_) in zip(slots, pairs):
+                q = g.create_group("FourQuarkFullyConnected_%d" % i)
+                arr, flat = _npr_block(rnd, dims)
+                q.create_dataset("corr", data=arr)
+                info = q.create_group("info")
+                info.attrs.create("gammaA", np.array([a.encode()]))
+                info.attrs.create("gammaB", np.array([b_.encode()]))
+                info.attrs.create("pIn", _mom_attr(p["mom_in"]))
+                info.attrs.create("pOut", _mom_attr(p["mom_out"]))
+                model[a + "," + b_] = flat
+    return model
